@@ -375,3 +375,32 @@ def validate_trace(module, cfg, trace_path, *, timeout=300, workers=1, dfs=True,
         return r.violation is None, info
     finally:
         shutil.rmtree(tmp, ignore_errors=True)
+
+
+def apalache_inductive(module, inv="IndInv", init="Init", indinit="IndInit", safety="Safety", cinit="CInit", timeout=300, spec_dir=SPEC_DIR):
+    """Discharge an inductive invariant with Apalache: Init => IndInv (length 0), IndInv /\\ Next => IndInv' (length 1 from
+    IndInit), IndInv => Safety (length 0 from IndInit). Returns a list of (obligation, ok, seconds). Raises TLCError when
+    Apalache does not reach a verdict. Runs in a scratch copy (Apalache writes _apalache-out)."""
+    tmp = tempfile.mkdtemp(prefix="vapa_")
+    out = []
+    try:
+        shutil.copy(os.path.join(spec_dir, module + ".tla"), tmp)
+        for name, args in (("Init => IndInv", ["--init=" + init, "--inv=" + inv, "--length=0"]),
+                           ("IndInv /\\ Next => IndInv'", ["--init=" + indinit, "--inv=" + inv, "--length=1"]),
+                           ("IndInv => " + safety, ["--init=" + indinit, "--inv=" + safety, "--length=0"])):
+            t0 = time.time()
+            env = dict(os.environ, JVM_ARGS="-Djava.io.tmpdir=" + tmp, JAVA_TOOL_OPTIONS="-Djava.io.tmpdir=" + tmp, TMPDIR=tmp)
+            try:
+                p = subprocess.run(["apalache-mc", "check", "--cinit=" + cinit] + args + ["--out-dir=" + os.path.join(tmp, "out"), module + ".tla"],
+                                   cwd=tmp, stdout=subprocess.PIPE, stderr=subprocess.STDOUT, text=True, timeout=timeout, env=env)
+            except subprocess.TimeoutExpired:
+                raise TLCError("Apalache timeout on %s (%s)" % (module, name))
+            if "EXITCODE: OK" in p.stdout:
+                out.append((name, True, time.time() - t0))
+            elif "EXITCODE: ERROR (12)" in p.stdout:
+                out.append((name, False, time.time() - t0))
+            else:
+                raise TLCError("Apalache failed on %s (%s):\n%s" % (module, name, p.stdout[-2000:]))
+        return out
+    finally:
+        shutil.rmtree(tmp, ignore_errors=True)
